@@ -338,6 +338,62 @@ Example C03_regex_inverts_printer_fk_names_except_nonvacuous :
   map pf_symbol (fill_const_name w_tab_full_text [mkPfk (B "0") [B "a"] (B "p") [B "id"]]) = [B "fk1"].
 Proof. exact (conj w_fk_decomposition w_fk_result). Qed.
 
+(** 3e'. fillConstName, the inline form (reFKC; round 5b).  Users write  `col` type ... CONSTRAINT `sym` REFERENCES `rt` (`r`)
+    inside a column definition; the planner never does.  Full statement wanted: for every CREATE TABLE text SQLite
+    accepts, every named inline key is inspected with its name.  Proved: for every statement of the shape
+      pre ++ [( or ,] ++ spaces ++ `col` ++ mid ++ " CONSTRAINT `sym` REFERENCES `rt` (`r1`, ...)" ++ rest
+    with [mid] (type, NOT NULL, DEFAULT ...) free of commas, back-quoted \w+ names, and the decidable side conditions
+    (a) reFKC starts nowhere in [pre] (leftmost match), (b) no later CONSTRAINT..REFERENCES tail in the same comma-free
+    stretch ([no_later_tail]: the class [^,]* is greedy, the LAST tail wins), (c) reFKC finds nothing in [rest] and reFKT
+    nothing in the statement: the key of the PRAGMA list with that column, table and referenced columns gets the symbol,
+    when only one key has that shape.  Missing: other quotings (double quotes, none: tied, 9.4 k texts), several inline
+    keys in one statement (iterate [find_all_fkc_printed]).  (b) is necessary: ExportFkcProofs.wi_two_result. *)
+From Atlas Require Import Sqlite.ExportFkcProofs.
+Theorem C03_regex_inverts_inline_fk_except :
+  forall pre c w col mid sym rt rcols rest fks,
+  open_ch c = true -> forallb ExportModel.is_space w = true -> name_ok col -> mid_ok mid ->
+  name_ok sym -> name_ok rt -> rcols <> [] -> Forall name_ok rcols ->
+  no_later_tail (inline_tail sym rt rcols ++ rest) = true ->
+  no_start_before _ match_fkc_at (pre ++ inline_fk_text c w col mid sym rt rcols ++ rest) (List.length pre) = true ->
+  find_all_fkc (S (List.length rest)) rest = [] ->
+  (let T := pre ++ inline_fk_text c w col mid sym rt rcols ++ rest in find_all_fkt (S (List.length T)) T = []) ->
+  one_match (m_fk (mkNfk sym [col] rt rcols)) fks ->
+  fill_const_name (pre ++ inline_fk_text c w col mid sym rt rcols ++ rest) fks = map (upd (mkNfk sym [col] rt rcols)) fks.
+Proof. exact fill_const_name_inline. Qed.
+Print Assumptions C03_regex_inverts_inline_fk_except.
+
+Example C03_regex_inverts_inline_fk_except_nonvacuous :
+  wi_text = B "CREATE TABLE `c` (`id` integer NOT NULL PRIMARY KEY, `pid` int NOT NULL CONSTRAINT `fk_p` REFERENCES `p` (`id`) ON DELETE CASCADE, `n` text NULL)"
+  /\ no_later_tail (inline_tail (B "fk_p") (B "p") [B "id"] ++ wi_rest) = true
+  /\ map pf_symbol (fill_const_name wi_text [mkPfk (B "0") [B "pid"] (B "p") [B "id"]]) = [B "fk_p"].
+Proof. exact (conj wi_is (conj (proj1 wi_premises) wi_result)). Qed.
+
+(** the premise [no_later_tail] of 3e' is necessary, and without it the export loses a declared name: two named
+    references in one column definition (legal SQL; reproduced on the real inspector: corpus statement 15 of
+    harness/cmd/export/corpus.go, tie line k015 `fks=fk_b,1`; finding C03-two-inline-fk-one-column): the greedy class
+    [^,]* finds the LAST clause only, the key to p keeps its PRAGMA number and the name fk_a is not recovered. *)
+Theorem C03_inline_fk_two_names_refuted :
+  exists s : bytes,
+    s = B "CREATE TABLE `c` (`pid` int CONSTRAINT `fk_a` REFERENCES `p` (`id`) CONSTRAINT `fk_b` REFERENCES `q` (`id`))"
+    /\ map pf_symbol (fill_const_name s [mkPfk (B "0") [B "pid"] (B "q") [B "id"]; mkPfk (B "1") [B "pid"] (B "p") [B "id"]])
+        = [B "fk_b"; B "1"].
+Proof. exists wi_two. split; [reflexivity|exact (proj2 wi_two_result)]. Qed.
+Print Assumptions C03_inline_fk_two_names_refuted.
+
+(** reFKC at one inline key, for every text around it: the match and its captures *)
+Theorem C03_reFKC_match_exact :
+  forall c w col mid sym rt rcols rest,
+  open_ch c = true -> forallb ExportModel.is_space w = true -> name_ok col -> mid_ok mid ->
+  name_ok sym -> name_ok rt -> rcols <> [] -> Forall name_ok rcols ->
+  no_later_tail (inline_tail sym rt rcols ++ rest) = true ->
+  match_fkc_at (inline_fk_text c w col mid sym rt rcols ++ rest) = Some (col, sym, rt, idents_text rcols, rest).
+Proof. exact match_fkc_printed. Qed.
+Print Assumptions C03_reFKC_match_exact.
+Example C03_reFKC_match_exact_nonvacuous :
+  match_fkc_at (B ", `pid` int CONSTRAINT `fk_p` REFERENCES `p` (`id`) ON DELETE CASCADE)")
+  = Some (B "pid", B "fk_p", B "p", B "`id`", B " ON DELETE CASCADE)").
+Proof. vm_compute. reflexivity. Qed.
+
 (** 3f. further findings as kernel-evaluated witnesses on the models (each reproduced on the real code, see
     known_findings.d/C03.json): a bare identifier ending in "check" before "(", a CHECK inside an SQL comment,
     a two-parameter type on a generated column, a column name with a space on AUTOINCREMENT, a comma before an
@@ -362,6 +418,181 @@ Print Assumptions C03_regex_inverts_printer_refuted_more.
     columns, no further "AS (" follows in the same comma-free stretch), the inspector recovers exactly
     sqlx.MayWrap(expr) / the column.  Both premises are decidable on the printed text; 3b / 3c show that
     neither can be dropped. *)
+(** 5c. The SQL export path of the CLI as a whole (round 5b; Sqlite/ExportRealm.v).
+    cmdlog.sqlInspect = fmtPlan(ChangesToRealm(client, realm)).  Full statement wanted: for every realm the exported
+    script, executed on an empty database, creates every object before it is used and exactly the objects of the realm.
+    [C03_sql_script_objects]: for EVERY realm (any number of schemas; tables are carried by the change, not looked up by
+    name) the object sequence of the planned script is: per schema in order, per table in order, CREATE TABLE then one
+    CREATE INDEX per index under its normalised name -- nothing else (no PRAGMA bracket, no stub of a referenced table);
+    a client that is not bound to a schema gets AddSchema first, which the SQLite planner refuses (every SQLite URL is
+    bound to "main", so that branch is only reachable in process).
+    [C03_sql_script_creates_before_use_except]: SQLite's catalogue (tables and indexes share one name space; an index
+    needs its table; REFERENCES needs nothing) accepts every statement of the script of every realm whose script names
+    each object once, whatever the foreign keys are (cycles, self references, dangling parents), and ends with exactly
+    the realm's tables in order.
+    [C03_sql_script_name_clash_refuted]: the premise is NOT implied by a legal catalogue: normalizeIdxName renames the
+    index of a UNIQUE constraint (sqlite_autoindex_t_1) to t_a, which another index may already be called; the script
+    then creates t_a twice (reproduced: finding C03-unique-index-name-clash).
+    [C03_sql_script_fk_order_refuted]: "parents before children" (C04's strict catalogue) is false of the export: it keeps
+    the inspection order; SQLite accepts it because parents are resolved when rows are written (tied: the scripts are
+    executed on a real engine in stages loop and cli, cyclic / self-referencing / child-first corpus included).
+    [C03_sql_script_fk_closure]: a parent that is a table of the realm is created by the script. *)
+From Atlas Require Import Sqlite.ExportRealm Sqlite.ExportRealmProofs.
+Theorem C03_sql_script_objects :
+  forall (bound : bool) (r : realm), option_map objects (sqlInspect bound r) = script_spec bound r.
+Proof. exact sqlInspect_spec. Qed.
+Print Assumptions C03_sql_script_objects.
+Example C03_sql_script_objects_nonvacuous :
+  option_map objects (sqlInspect true w_cycle)
+  = Some [OTable n_a [n_b]; OIndex [105;49]%N n_a; OTable n_b [n_a]; OTable n_t [n_t]]
+  /\ sqlInspect false w_cycle = None.
+Proof. exact (conj (proj1 w_cycle_lazy) (proj1 w_unbound)). Qed.
+
+Theorem C03_sql_script_creates_before_use_except :
+  forall (bound : bool) (r : realm) (os : list obj),
+  script_spec bound r = Some os -> NoDup (obj_names os) ->
+  exists c', replay false empty_cat os = Some c' /\ c_tables c' = map x_name (all_tables r).
+Proof. exact dump_replays. Qed.
+Print Assumptions C03_sql_script_creates_before_use_except.
+Example C03_sql_script_creates_before_use_except_nonvacuous :
+  exists os, script_spec true w_cycle = Some os /\ NoDup (obj_names os) /\ List.length os = 4%nat.
+Proof.
+  eexists. split; [vm_compute; reflexivity|]. split; [|reflexivity].
+  repeat constructor; cbn; intro H; repeat (destruct H as [H|H]; [discriminate|]); exact H.
+Qed.
+
+Theorem C03_sql_script_name_clash_refuted :
+  exists (r : realm) (os : list obj),
+    script_spec true r = Some os
+    /\ NoDup (map x_name (all_tables r) ++ flat_map (fun x => map i_name (t_idx (x_t x))) (all_tables r))
+    /\ replay false empty_cat os = None.
+Proof.
+  exists w_clash, [OTable n_t []; OIndex n_t_a n_t; OIndex n_t_a n_t].
+  destruct w_clash_fails as (H1 & H2 & H3). split; [exact H1|]. split; [exact H2|exact H3].
+Qed.
+Print Assumptions C03_sql_script_name_clash_refuted.
+
+Theorem C03_sql_script_fk_order_refuted :
+  exists (r : realm) (os : list obj),
+    option_map objects (sqlInspect true r) = Some os
+    /\ (exists c, replay false empty_cat os = Some c) /\ replay true empty_cat os = None.
+Proof. exists w_cycle. eexists. exact w_cycle_lazy. Qed.
+Print Assumptions C03_sql_script_fk_order_refuted.
+
+Theorem C03_sql_script_fk_closure :
+  forall (bound : bool) (r : realm) (os : list obj) (x : xtable) (p : str),
+  script_spec bound r = Some os -> In x (all_tables r) -> In p (map f_reftable (t_fks (x_t x))) ->
+  In p (map x_name (all_tables r)) -> In p (tnames os).
+Proof. exact dump_fk_closure. Qed.
+Print Assumptions C03_sql_script_fk_closure.
+Example C03_sql_script_fk_closure_nonvacuous :
+  exists os, script_spec true w_cycle = Some os /\ In n_b (tnames os).
+Proof. eexists. split; [vm_compute; reflexivity|]. vm_compute. right. left. reflexivity. Qed.
+
+(** 5d. (round 5b) the pointer-based script of 5c and the name-based [plan_dump] of 5 / 5b are the same plan for a
+    schema-bound client, one schema and distinct table names (SQLite's catalogue): C03_sql_partial and
+    C03_sql_dump_tables are statements about the script of 5c. *)
+From Atlas Require Import Sqlite.ExportRealmLink.
+Theorem C03_sql_script_is_plan_dump :
+  forall (nm : str) (B : xschema), NoDup (map x_name B) ->
+  sqlInspect true [mkRS nm B] = option_map p_changes (plan_dump B).
+Proof. exact sqlInspect_is_plan_dump. Qed.
+Print Assumptions C03_sql_script_is_plan_dump.
+Example C03_sql_script_is_plan_dump_nonvacuous :
+  NoDup (map x_name (rs_tables (hd (mkRS [] []) w_cycle))) /\
+  exists cs, sqlInspect true w_cycle = Some cs /\ List.length cs = 4%nat.
+Proof.
+  split; [|eexists; split; vm_compute; reflexivity].
+  repeat constructor; cbn; intro H; repeat (destruct H as [H|H]; [discriminate|]); exact H.
+Qed.
+
+(** 5d'. (round 5b) the premise of C03_sql_script_creates_before_use_except discharged from SQLite's own name space:
+    for every realm in which no inspected index carries a generated name (sqlite_autoindex...: the only names
+    normalizeIdxName changes) and whose tables and indexes are pairwise distinct, the script is accepted statement by
+    statement and creates exactly the realm's tables, in order.  With C03_sql_script_name_clash_refuted this is exact:
+    the only way the export of a legal catalogue can name an object twice is a renamed UNIQUE-constraint index. *)
+From Atlas Require Import Sqlite.ExportRealmPlain.
+Theorem C03_sql_script_creates_before_use_plain :
+  forall (bound : bool) (r : realm) (os : list obj),
+  script_spec bound r = Some os ->
+  Forall (fun x => Forall plain_idx (t_idx (x_t x))) (all_tables r) ->
+  NoDup (cat_names (all_tables r)) ->
+  exists c', replay false empty_cat os = Some c' /\ c_tables c' = map x_name (all_tables r).
+Proof. exact dump_replays_plain. Qed.
+Print Assumptions C03_sql_script_creates_before_use_plain.
+Example C03_sql_script_creates_before_use_plain_nonvacuous :
+  Forall (fun x => Forall plain_idx (t_idx (x_t x))) (all_tables w_cycle) /\ NoDup (cat_names (all_tables w_cycle)).
+Proof. exact w_cycle_plain. Qed.
+
+(** 5e. (round 5b) the indented export  {{ sql . "  " }}  (cmdlog.sqlInspect(report, indent) -> PlanOptions.Indent;
+    sqlx.Builder.NL / MapIndent / WrapIndent; Sqlite/ExportPrintIndent.v, tied in stage print with two indents).
+    Full statement wanted: the indented script recreates the same database as the plain one.  Proved, for EVERY table:
+    with the empty indent the text is the plain CREATE TABLE; with ANY indent made of white space the indented text
+    fails exactly when the plain one fails and differs from it in white space only ([sq] removes the bytes of
+    strings.TrimSpace's ASCII class).  Missing: SQLite's reading of the two texts (white space is insignificant outside
+    literals: the engine is outside the proofs; observed through the CLI loop of stage cli), and the regex recovery on
+    the stored indented text (observed: sql-indent-reinspect). *)
+From Atlas Require Import Sqlite.ExportPrintIndent Sqlite.ExportPrintIndentProofs.
+Theorem C03_indent_empty_is_plain : forall x : xtable, print_table_ind [] x = print_table x.
+Proof. exact print_table_ind_nil. Qed.
+Print Assumptions C03_indent_empty_is_plain.
+Theorem C03_indent_whitespace_only :
+  forall (ind : bytes) (x : xtable), forallb is_go_space ind = true ->
+  match print_table_ind ind x, print_table x with
+  | Some a, Some a' => sq a = sq a'
+  | None, None => True
+  | _, _ => False
+  end.
+Proof. intros ind x H. exact (print_table_ind_ws ind H x). Qed.
+Print Assumptions C03_indent_whitespace_only.
+Example C03_indent_nonvacuous :
+  print_table_ind [32;32]%N wi_x <> print_table wi_x /\
+  (exists a a', print_table_ind [32;32]%N wi_x = Some a /\ print_table wi_x = Some a' /\ sq a = sq a' /\ In ch_nl a /\ ~ In ch_nl a').
+Proof. exact wi_x_text. Qed.
+
+(** 5f. (round 5b) fillChecks on the CHECK list of the INDENTED CREATE TABLE -- the text SQLite stores when the script of
+    `schema inspect --format '{{ sql . "  " }}'` is executed: after ANY text free of the letters CHECK, the constraints
+    each written after a comma and ANY white space (new line + any indentation), then ANY text free of those letters
+    (new line, closing parenthesis, options): fillChecks returns exactly the constraints, in order.  This is 2. with
+    the separator of the indented printer.  Missing: the decomposition of [print_table_ind] into this shape (the
+    analogue of 2b; the CLI loop of stage cli observes the recovery on the real indented text instead). *)
+From Atlas Require Import Sqlite.ExportIndentCheckProofs.
+Theorem C03_regex_inverts_indented_checks_partial :
+  forall (x : bytes) (l : list (bytes * (option bytes * bytes))) (post : bytes),
+  occurs_ci K_CHECK x = false ->
+  Forall (fun p => forallb ExportModel.is_space (fst p) = true /\ check_ok (snd p)) l ->
+  occurs_ci K_CHECK post = false -> (l = [] -> occurs_ci K_CHECK (x ++ post) = false) ->
+  fill_checks (x ++ checks_text_ws l ++ post) = map snd l.
+Proof. exact fill_checks_inverts_indented. Qed.
+Print Assumptions C03_regex_inverts_indented_checks_partial.
+Example C03_regex_inverts_indented_checks_nonvacuous :
+  Forall (fun p => forallb ExportModel.is_space (fst p) = true /\ check_ok (snd p)) w_ind_l /\
+  fill_checks w_ind_text = w_cks /\ In ch_nl w_ind_text.
+Proof. split; [exact (proj1 w_ind_checks)|]. split; [exact (proj2 w_ind_checks)|]. vm_compute. tauto. Qed.
+
+(** 5g. (round 5b) C03_regex_inverts_printer, CHECK part, for the INDENTED printer itself: for EVERY table the indented
+    printer accepts (any columns, defaults, generated columns, primary key, foreign keys, options), every indent that
+    is a non-empty run of blanks, CHECK constraints with \w+ names (or none) and wrapped expressions, and a body
+    ([print_body_ind]) free of the letters CHECK: fillChecks applied to the indented CREATE TABLE -- the text SQLite
+    stores when the indented export is executed -- returns exactly the table's constraints.  (For a table without
+    constraints the premise is on the whole text.)  The other recoveries on the indented statement are observed only. *)
+From Atlas Require Import Sqlite.ExportIndentTableProofs.
+Theorem C03_regex_inverts_indented_printer_checks_except :
+  forall (ind : bytes), ind <> [] -> forallb (N.eqb 32) ind = true ->
+  forall (x : xtable) (b3 txt : bytes),
+  print_body_ind ind x = Some b3 -> print_table_ind ind x = Some txt ->
+  occurs_ci K_CHECK (norm b3) = false ->
+  (t_checks (x_t x) = [] -> occurs_ci K_CHECK (norm b3 ++ ch_nl :: ch_rp :: opts_suffix (x_t x)) = false) ->
+  Forall check_wf (t_checks (x_t x)) ->
+  fill_checks txt = map kopt (t_checks (x_t x)).
+Proof. exact fill_checks_print_table_ind. Qed.
+Print Assumptions C03_regex_inverts_indented_printer_checks_except.
+Example C03_regex_inverts_indented_printer_checks_nonvacuous :
+  exists b3 txt, print_body_ind [32;32]%N wi_x = Some b3 /\ print_table_ind [32;32]%N wi_x = Some txt /\
+    occurs_ci K_CHECK (norm b3) = false /\ fill_checks txt = map kopt (t_checks (x_t wi_x)) /\ t_checks (x_t wi_x) <> [].
+Proof. eexists. eexists. split; [vm_compute; reflexivity|]. split; [vm_compute; reflexivity|]. split; [vm_compute; reflexivity|]. split; [vm_compute; reflexivity|discriminate]. Qed.
+
+
 From Atlas Require Import Diff.Schema Sqlite.ExportColumnProofs.
 Theorem C03_regex_inverts_printer_genexpr_table_except :
   forall x cols1 c cols2 e ty txt,
